@@ -14,7 +14,7 @@ ANCHORS = ["Lanelet.interpolate_position", "Lanelet.merge_lanelets", "Lanelet.fi
            "Lanelet.find_lanelet_predecessors_in_range", "Lanelet._compute_polyline_cumsum_dist"]
 REQUIRED = ["interp.at-vertex", "interp.zero", "interp.full-length", "interp.interior", "merge.pred-first",
             "merge.suc-first", "merge.nonuniform-spacing", "graph.cyclic", "graph.diamond-or-merge", "graph.branching",
-            "range.equal-to-partial-length", "pred-search", "succ-search", "graph.curved-lanelets", "poly.int-dtype", "merge.via-all_lanelets_by_merging"]
+            "range.equal-to-partial-length", "pred-search", "succ-search", "graph.curved-lanelets", "poly.int-dtype", "graph.neighbour-list-not-ascending", "merge.via-all_lanelets_by_merging"]
 EXHAUSTIVE = {"quick": "all directed graphs without self loops on 1..3 nodes (as successor relations) x start node x "
                        "range limits {below, equal, above} every partial path length",
               "thorough": "all directed graphs without self loops on 1..4 nodes x start node x range limits"}
@@ -245,6 +245,12 @@ def run(ctx):
         for a, b in edges:
             succ[a].append(b + 1)
             pred[b].append(a + 1)
+        # the ORDER in which a lanelet lists its successors / predecessors is the user's (not ascending, not set order)
+        for lst in list(succ.values()) + list(pred.values()):
+            if len(lst) > 1:
+                rng.shuffle(lst)
+                if lst != sorted(lst):
+                    ctx.feature("graph.neighbour-list-not-ascending")
         lanelets = []
         for a in range(nn):
             ln = lengths[a]
